@@ -10,6 +10,7 @@
 package main
 
 import (
+	"bytes"
 	"errors"
 	"fmt"
 	"math"
@@ -18,6 +19,8 @@ import (
 	"runtime/debug"
 	"runtime/pprof"
 	"strings"
+	"sync"
+	"time"
 
 	"com.tuntun.rangers/node/src/common"
 	"com.tuntun.rangers/node/src/core"
@@ -29,7 +32,17 @@ import (
 )
 
 // ---- stub consensus helper: one genesis group, every group passes CheckGroup ----
-type helper struct{ genesis types.Group }
+// CheckGroup can park the calling goroutine once, for one chosen group (see runSched).
+type helper struct {
+	genesis types.Group
+	mu      sync.Mutex
+	gate    *gate
+}
+
+type gate struct {
+	id, pre          []byte
+	entered, release chan struct{}
+}
 
 func (h *helper) GenerateGenesisInfo() []*types.GenesisInfo {
 	g := h.genesis
@@ -49,7 +62,19 @@ func (h *helper) VerifyBlockHeader(*types.BlockHeader) (bool, error) { return tr
 func (h *helper) VerifyGroupSign([]byte, common.Hash, []byte) (bool, error) {
 	return true, nil
 }
-func (h *helper) CheckGroup(*types.Group) (bool, error) { return true, nil }
+func (h *helper) CheckGroup(g *types.Group) (bool, error) {
+	h.mu.Lock()
+	gt := h.gate
+	if gt != nil && bytes.Equal(g.Id, gt.id) && g.Header != nil && bytes.Equal(g.Header.PreGroup, gt.pre) {
+		h.gate = nil // one call only
+		h.mu.Unlock()
+		close(gt.entered)
+		<-gt.release
+		return true, nil
+	}
+	h.mu.Unlock()
+	return true, nil
+}
 func (h *helper) VerifyMemberInfo(*types.BlockHeader, *types.BlockHeader) (bool, error) {
 	return true, nil
 }
@@ -590,6 +615,344 @@ func ids(l []G) []uint64 {
 	return r
 }
 
+// ---- gated schedules: an AddGroup parked inside CheckGroup vs competing calls ----
+// intrinsic evaluates the property on one observation alone (no reference list): the predecessor walk
+// from the last group ends at genesis, Count() is its length, the height index is that list and empty
+// from Count() on, every listed group is found by id with its position, the sync answers are the
+// following groups, sqlite has exactly the listed groups.
+func intrinsic(U int, ob *Obs) []string {
+	var bad []string
+	n := len(ob.Walk)
+	L := make([]uint64, n) // genesis first
+	for i, id := range ob.Walk {
+		L[n-1-i] = id
+	}
+	if n == 0 || L[0] != 1 {
+		bad = append(bad, fmt.Sprintf("the predecessor walk from the last group %v does not end at genesis", ob.Walk))
+		return bad
+	}
+	if uint64(n) != ob.Count {
+		bad = append(bad, fmt.Sprintf("Count()=%d, the predecessor walk from the last group visits %d groups %v", ob.Count, n, ob.Walk))
+	}
+	if ob.Last == nil || ob.Last.Id != L[n-1] {
+		bad = append(bad, "LastGroup is not the start of the walk")
+	}
+	pos := map[uint64]int{}
+	for i, id := range L {
+		if _, dup := pos[id]; dup {
+			bad = append(bad, fmt.Sprintf("the predecessor walk %v visits group %d twice", ob.Walk, id))
+			return bad
+		}
+		pos[id] = i
+	}
+	for h, g := range ob.ByH {
+		switch {
+		case uint64(h) < ob.Count && h < n:
+			if g == nil || g.Id != L[h] || g.H != uint64(h) {
+				bad = append(bad, fmt.Sprintf("GetGroupByHeight(%d)=%s, the %d-th group of the predecessor list is %d", h, g.coq(), h, L[h]))
+			}
+		case uint64(h) >= ob.Count && g != nil:
+			bad = append(bad, fmt.Sprintf("GetGroupByHeight(%d)=%s although Count()=%d", h, g.coq(), ob.Count))
+		}
+	}
+	for id := 1; id <= U; id++ {
+		i, listed := pos[uint64(id)]
+		g := ob.ById[id-1]
+		if listed {
+			wantPre := uint64(0)
+			if i > 0 {
+				wantPre = L[i-1]
+			}
+			if g == nil || g.H != uint64(i) || g.Pre != wantPre {
+				bad = append(bad, fmt.Sprintf("GetGroupById(%d)=%s, it is number %d of the predecessor list (predecessor %d)", id, g.coq(), i, wantPre))
+			}
+			lim := i + 6
+			if lim > n {
+				lim = n
+			}
+			got := ob.Sync[id-1]
+			ok := len(got) == lim-i-1
+			for k := 0; ok && k < len(got); k++ {
+				ok = got[k] != nil && got[k].Id == L[i+1+k]
+			}
+			if !ok {
+				bad = append(bad, fmt.Sprintf("GetSyncGroupsById(%d)=%s, the groups after it are %v", id, coqGs(got), L[i+1:lim]))
+			}
+			if ob.SqH[id-1] != int64(i) {
+				bad = append(bad, fmt.Sprintf("sqlite groupheight of %d is %d, list position %d", id, ob.SqH[id-1], i))
+			}
+		} else if ob.SqH[id-1] != -1 {
+			bad = append(bad, fmt.Sprintf("sqlite has a row for %d, which is not on the predecessor list", id))
+		}
+	}
+	if ob.SqN != uint64(n) {
+		bad = append(bad, fmt.Sprintf("sqlite has %d rows, the predecessor list has %d groups", ob.SqN, n))
+	}
+	return bad
+}
+
+const schedGrace = 2 * time.Second // how long a competing call may take before it counts as waiting for the parked AddGroup
+const schedStuck = 20 * time.Second
+
+// applySafe = apply under recover
+func applySafe(o Op) (ret uint64, pan interface{}) {
+	defer func() { pan = recover() }()
+	return apply(o), nil
+}
+
+// runSched: prefix sequentially on a fresh store; AddGroup(x) in its own goroutine, parked inside
+// CheckGroup (after Has(id), before the write lock); the competing calls one after the other from a
+// second goroutine; release; the property is evaluated when both have returned.
+// On the code as it stands the competing calls do not wait (CheckGroup runs outside the lock) and the
+// parked AddGroup re-validates parent and PreGroup under the write lock. Were the lock to cover
+// CheckGroup, the competing calls would wait: that is detected (grace period) and is fine too.
+func runSched(res *hx.Result, sc *hx.Cases, U int, name string, prefix []Op, x FG, comp []Op) {
+	names := func(l []Op) []string {
+		p := make([]string, len(l))
+		for i, o := range l {
+			p[i] = o.String()
+		}
+		return p
+	}
+	sched := []string{}
+	desc := func() interface{} {
+		return map[string]interface{}{"genesis": "id 1, PreGroup nil", "sequential-prefix": names(prefix),
+			"parked":    fmt.Sprintf("AddGroup(%d,pre=%d,parent=%d) held inside consensusHelper.CheckGroup", x.Id, x.Pre, x.Parent),
+			"competing": names(comp), "schedule": sched}
+	}
+	kind := "none"
+	if len(comp) > 0 {
+		kind = comp[0].kind()
+	}
+	viol := func(clause, what string) {
+		res.Violate("C19/schedules:"+clause+":parked-addgroup-vs-"+kind, what, desc())
+	}
+	freshStore(U)
+	for _, o := range prefix {
+		if _, pan := applySafe(o); pan != nil {
+			viol("panic", fmt.Sprint("panic in the sequential prefix: ", pan))
+			return
+		}
+	}
+	gt := &gate{id: idBytes(x.Id), pre: idBytes(x.Pre), entered: make(chan struct{}), release: make(chan struct{})}
+	theHelper.mu.Lock()
+	theHelper.gate = gt
+	theHelper.mu.Unlock()
+	type done struct {
+		ret uint64
+		pan interface{}
+	}
+	xDone := make(chan done, 1)
+	go func() {
+		r, p := applySafe(Op{K: opAdd, Id: x.Id, Pre: x.Pre, Parent: x.Parent})
+		xDone <- done{r, p}
+	}()
+	var xr done
+	xReturned, parked := false, false
+	select {
+	case <-gt.entered:
+		parked = true
+		sched = append(sched, "G1 AddGroup(x): Has(x.Id)=false, enters CheckGroup and is held there")
+	case xr = <-xDone:
+		xReturned = true
+		sched = append(sched, "G1 AddGroup(x) returns before CheckGroup")
+	case <-time.After(schedStuck):
+		viol("stuck", "AddGroup(x) neither reached CheckGroup nor returned")
+		close(gt.release)
+		<-xDone
+		return
+	}
+	theHelper.mu.Lock()
+	theHelper.gate = nil
+	theHelper.mu.Unlock()
+	crets := make([]uint64, len(comp))
+	compDone := make(chan interface{}, 1)
+	go func() {
+		for i, o := range comp {
+			r, p := applySafe(o)
+			if p != nil {
+				compDone <- p
+				return
+			}
+			crets[i] = r
+		}
+		compDone <- nil
+	}()
+	xFirst, mixed := xReturned, false
+	var cpan interface{}
+	compFinished := false
+	select {
+	case cpan = <-compDone:
+		compFinished = true
+		sched = append(sched, "G2 runs the competing calls to completion")
+	case <-time.After(schedGrace):
+		if xReturned {
+			viol("stuck", "a competing call does not return although no AddGroup is in flight")
+			return
+		}
+		// whether the call waits for a lock or is merely slow cannot be told apart from outside: the
+		// property is still evaluated at the end, but the order is not asserted to the model
+		mixed = true
+		xFirst = true
+		sched = append(sched, "G2: a competing call waits (for the lock held by the parked AddGroup)")
+	}
+	if parked {
+		close(gt.release)
+		select {
+		case xr = <-xDone:
+			sched = append(sched, "G1 released: AddGroup(x) returns")
+		case <-time.After(schedStuck):
+			viol("stuck", "the released AddGroup(x) does not return")
+			return
+		}
+	}
+	if !compFinished {
+		select {
+		case cpan = <-compDone:
+			sched = append(sched, "G2: the competing calls return")
+		case <-time.After(schedStuck):
+			viol("stuck", "the competing calls do not return after AddGroup(x) has returned")
+			return
+		}
+	}
+	if xr.pan != nil || cpan != nil {
+		viol("panic", fmt.Sprint("panic: AddGroup(x): ", xr.pan, " competing: ", cpan))
+		return
+	}
+	ob := observe(U, xr.ret)
+	bad := intrinsic(U, ob)
+	for _, b := range bad {
+		viol("addgroup-check-then-act", fmt.Sprintf("after both goroutines returned (AddGroup(x) returned code %d, competing calls %v): %s", xr.ret, crets, b))
+	}
+	class := "sched:" + name
+	switch {
+	case !parked:
+		class += ":x-refused-before-checkgroup"
+	case xFirst:
+		class += ":competitor-waited"
+	case xr.ret == 0:
+		class += ":x-added-after-competitor"
+	default:
+		class += fmt.Sprintf(":x-refused(%d)-after-competitor", xr.ret)
+	}
+	res.Count(class, "sched;"+strings.Join(names(prefix), ";")+"|"+fmt.Sprint(x)+"|"+strings.Join(names(comp), ";"), parked && len(comp) > 0)
+	if mixed {
+		res.Count("sched:mixed-order-not-compared-with-model", name, false)
+		return
+	}
+	pc := make([]string, len(prefix))
+	for i, o := range prefix {
+		pc[i] = o.coq()
+	}
+	cc := make([]string, len(comp))
+	for i, o := range comp {
+		cc[i] = o.coq()
+	}
+	cr := make([]string, len(crets))
+	for i, r := range crets {
+		cr[i] = fmt.Sprint(r)
+	}
+	i := sc.Add(fmt.Sprintf("(%d, [%s], (%d,%d,%d), [%s], %s, %s, [%s])", U, strings.Join(pc, ";"), x.Id, x.Pre, x.Parent,
+		strings.Join(cc, ";"), hx.CoqBool(xFirst), ob.coq(), strings.Join(cr, ";")),
+		map[string]interface{}{"prefix": names(prefix), "parked": fmt.Sprint(x), "competing": names(comp), "x_first": xFirst, "x_result": xr.ret, "competing_results": crets})
+	if i%23 == 3 {
+		res.Sample(map[string]interface{}{"class": class, "sequential-prefix": names(prefix), "parked-AddGroup": fmt.Sprintf("(%d,pre=%d,parent=%d)", x.Id, x.Pre, x.Parent),
+			"competing": names(comp), "x_result": xr.ret, "competing_results": crets, "count": ob.Count, "walk": ob.Walk})
+	}
+}
+
+// genSched: a random gated scenario in which an id determines the PreGroup of every group that carries it
+// (the proviso of C19_schedules_locked: CheckGroup binds the id to the group).
+func genSched(r *hx.Rng, U int) (prefix []Op, x FG, comp []Op) {
+	sh := &shadow{l: []G{{1, 0, 0, 0}}}
+	preOf := map[uint64]uint64{1: 0}
+	fresh := func() uint64 {
+		free := []uint64{}
+		for id := uint64(2); id <= uint64(U); id++ {
+			if _, used := preOf[id]; !used {
+				free = append(free, id)
+			}
+		}
+		if len(free) == 0 {
+			return 0
+		}
+		return free[r.Intn(len(free))]
+	}
+	onChain := func() uint64 { return sh.l[r.Intn(len(sh.l))].Id }
+	for k := r.Intn(4); k > 0; k-- {
+		id := fresh()
+		o := Op{K: opAdd, Id: id, Pre: sh.l[len(sh.l)-1].Id, Parent: onChain()}
+		preOf[id] = o.Pre
+		sh.step(o)
+		prefix = append(prefix, o)
+	}
+	if len(sh.l) > 1 && r.Intn(5) == 0 {
+		o := Op{K: opRemoveLast}
+		sh.step(o)
+		prefix = append(prefix, o)
+	}
+	last := sh.l[len(sh.l)-1].Id
+	// the parked group: mostly a valid successor of the last group
+	x = FG{Id: fresh(), Pre: last, Parent: onChain()}
+	switch r.Intn(10) {
+	case 0: // an id that is on the chain already (same PreGroup as the listed one)
+		g := sh.l[r.Intn(len(sh.l))]
+		x = FG{Id: g.Id, Pre: g.Pre, Parent: g.Parent}
+	case 1: // predecessor below the tip
+		x.Pre = onChain()
+	}
+	if x.Id == 0 {
+		g := sh.l[len(sh.l)-1]
+		x = FG{Id: g.Id, Pre: g.Pre, Parent: g.Parent}
+	}
+	if _, ok := preOf[x.Id]; !ok {
+		preOf[x.Id] = x.Pre
+	}
+	mk := func(pre uint64) (FG, bool) { // a group for a competing call, respecting preOf
+		if r.Intn(5) == 0 { // the same group as x (arrives a second time, e.g. from a peer)
+			if preOf[x.Id] == pre || r.Intn(2) == 0 {
+				return FG{x.Id, preOf[x.Id], x.Parent}, true
+			}
+		}
+		id := fresh()
+		if id == 0 {
+			return FG{}, false
+		}
+		preOf[id] = pre
+		return FG{id, pre, onChain()}, true
+	}
+	for k := 1 + r.Intn(5)/4; k > 0; k-- {
+		var o Op
+		switch c := r.Intn(100); {
+		case c < 40: // competing successor of the same predecessor
+			g, ok := mk(sh.l[len(sh.l)-1].Id)
+			if !ok {
+				o = Op{K: opRemoveLast}
+			} else {
+				o = Op{K: opAdd, Id: g.Id, Pre: g.Pre, Parent: g.Parent}
+			}
+		case c < 58:
+			o = Op{K: opRemoveLast}
+		case c < 70:
+			o = Op{K: opRemoveFrom, H: uint64(r.Intn(len(sh.l) + 1))}
+		default:
+			o = Op{K: opFork, H: uint64(r.Intn(len(sh.l)))}
+			pre := sh.l[o.H].Id
+			for j := r.Intn(3); j > 0; j-- {
+				g, ok := mk(pre)
+				if !ok {
+					break
+				}
+				o.Fork = append(o.Fork, g)
+				pre = g.Id
+			}
+		}
+		sh.step(o)
+		comp = append(comp, o)
+	}
+	return
+}
+
 // ---- generators ----
 func genSeq(r *hx.Rng, U int) []Op {
 	n := 6 + r.Intn(10)
@@ -805,9 +1168,40 @@ func main() {
 	for i := 0; i < a.N; i++ {
 		runCase(7, genSeq(rng, 7))
 	}
+	// gated schedules
+	sc := hx.NewCasesNamed(a.Out, "sched", "From V.C19 Require Import Model Harness.\nOpen Scope N_scope.",
+		"N * list hop * (N * N * N) * list hop * bool * obs * list N", "check_sched", 100)
+	add := func(id, pre, parent uint64) Op { return Op{K: opAdd, Id: id, Pre: pre, Parent: parent} }
+	fixed := []struct {
+		name   string
+		prefix []Op
+		x      FG
+		comp   []Op
+	}{
+		{"competing-successor", []Op{add(2, 1, 1)}, FG{3, 2, 1}, []Op{add(4, 2, 1)}},
+		{"competing-successor-of-genesis", nil, FG{2, 1, 1}, []Op{add(3, 1, 1)}},
+		{"same-group-twice", []Op{add(2, 1, 1)}, FG{3, 2, 1}, []Op{add(3, 2, 1)}},
+		{"tip-removed", []Op{add(2, 1, 1)}, FG{3, 2, 1}, []Op{{K: opRemoveLast}}},
+		{"parent-removed", []Op{add(2, 1, 1), add(3, 2, 1)}, FG{4, 3, 3}, []Op{{K: opRemoveLast}, add(5, 2, 1)}},
+		{"fork-switch-below-tip", []Op{add(2, 1, 1), add(3, 2, 1)}, FG{4, 3, 1}, []Op{{K: opFork, H: 0, Fork: []FG{{5, 1, 1}, {6, 5, 5}}}}},
+		{"fork-switch-readds-x", []Op{add(2, 1, 1)}, FG{3, 2, 1}, []Op{{K: opFork, H: 1, Fork: []FG{{3, 2, 1}, {4, 3, 3}}}}},
+		{"remove-from-ancestor", []Op{add(2, 1, 1), add(3, 2, 2)}, FG{4, 3, 1}, []Op{{K: opRemoveFrom, H: 0}}},
+		{"tip-removed-and-restored", []Op{add(2, 1, 1)}, FG{3, 2, 1}, []Op{{K: opRemoveLast}, add(2, 1, 1)}},
+		{"no-competitor", []Op{add(2, 1, 1)}, FG{3, 2, 1}, nil},
+	}
+	for _, f := range fixed {
+		runSched(res, sc, 7, f.name, f.prefix, f.x, f.comp)
+	}
+	nSched := a.N / 4
+	for i := 0; i < nSched; i++ {
+		p, x, c := genSched(rng, 7)
+		runSched(res, sc, 7, "random", p, x, c)
+	}
+	res.Note(fmt.Sprintf("gated schedules: %d fixed + %d seeded random scenarios; consensusHelper.CheckGroup holds one AddGroup (after Has(id), before the write lock) while a second goroutine runs competing AddGroup / remove(last) / removeFromCommonAncestor / fork-switch calls to completion, then releases it; a competing call that does not return within %v counts as waiting for the parked call (then the parked call is released first); the property is evaluated on the observation taken after both returned, and the observation is compared with the model's fine-grained semantics (crun) under the same schedule. In every scenario an id determines the PreGroup of the groups carrying it (what CheckGroup guarantees on a real node)", len(fixed), nSched, schedGrace))
 	core.VerifGCShutdown()
 	mysql.CloseMysql()
 	cs.Close()
-	res.ModelCases = cs.Total()
+	sc.Close()
+	res.ModelCases = cs.Total() + sc.Total()
 	res.Write(a.Out)
 }
